@@ -53,7 +53,7 @@ func c01Compare(c *mon.Ctx, s *model.Schema, text string, built *builtSchema, v 
 	if want == model.Unspec {
 		c.Count("oracle unspecified (not compared)", 1)
 		if obs.Panic != "" {
-			c.Violate("validate", c01Case{text, s.OptKeys, docText}, "no panic", obs.String(), "Validate panicked")
+			c.Violate("vpanic", c01Case{text, s.OptKeys, docText}, "no panic", obs.String(), "Validate panicked")
 		}
 		return
 	}
@@ -429,6 +429,13 @@ func c01Exhaustive(c *mon.Ctx, part int) {
 	}
 }
 
+func noPanic(o lib.Obs) string {
+	if o.Panic != "" {
+		return o.String()
+	}
+	return "no panic"
+}
+
 func c01ReplayValidate(raw json.RawMessage) string {
 	var cs c01Case
 	if err := json.Unmarshal(raw, &cs); err != nil {
@@ -456,6 +463,11 @@ func init() {
 		Run: c01Run,
 		Replay: map[string]func(json.RawMessage) string{
 			"validate": c01ReplayValidate,
+			"vpanic": func(raw json.RawMessage) string {
+				var cs c01Case
+				json.Unmarshal(raw, &cs)
+				return noPanic(lib.Validate(lib.Spec{Text: cs.Schema, OptKeys: cs.OptKeys}, cs.Doc))
+			},
 			"check": func(raw json.RawMessage) string {
 				var cs c01Case
 				json.Unmarshal(raw, &cs)
